@@ -86,7 +86,7 @@ fn drive_tpl(vectors: Option<&str>, corpus: &str, rng: &mut Rng, thorough: bool,
     }
   }
   // corpus: a multi-line named node N inside a site S; pattern = S with N abstracted
-  let per_file = if thorough { 12 } else { 3 };
+  let per_file = if thorough { 12 } else { 6 };
   for (l, path, text) in util::corpus(corpus) {
     if text.contains('\r') || text.contains('\t') {
       continue; // the indentation clause is judged on space-indented LF text (see Template.tla Judged)
@@ -109,14 +109,36 @@ fn drive_tpl(vectors: Option<&str>, corpus: &str, rng: &mut Rng, thorough: bool,
       let st = site.text().to_string();
       let (s, e) = (n.range().start - site.range().start, n.range().end - site.range().start);
       let pattern = format!("{}$V{}", &st[..s], &st[e..]);
-      let template = match k % 4 {
+      let template = match k % 6 {
         0 => "$V".to_string(),
         1 => "wrap($V)".to_string(),
         2 => "wrap(\n    $V,\n  $V\n)".to_string(),
+        // sigils that start no meta variable are literal text and shift the slots behind them
+        4 => "$(\n    $V,\n  $.x $V\n)".to_string(),
+        5 => "$1 $$ $(\n   $V)".to_string(),
         _ => pattern.clone(), // rewriting the node to itself
       };
+      // "rewriting a node to itself": the template is the node's text as a template author writes it, i.e. with the
+      // continuation lines relative to the first line (the indentation of the site's line removed); it is judged
+      // only when the hole captured exactly the node that was cut out
+      let mut is_self = k % 6 == 3;
+      let template = if is_self {
+        let before = &text[..site.range().start];
+        let line = &before[before.rfind('\n').map(|i| i + 1).unwrap_or(0)..];
+        let ind = line.len() - line.trim_start_matches(' ').len();
+        let lines: Vec<&str> = template.split('\n').collect();
+        if lines.iter().skip(1).all(|l| l.trim().is_empty() || l.starts_with(&" ".repeat(ind))) {
+          lines.iter().enumerate().map(|(i, l)| if i == 0 || l.len() < ind { l.to_string() } else { l[ind..].to_string() }).collect::<Vec<_>>().join("\n")
+        } else {
+          is_self = false;
+          template
+        }
+      } else {
+        template
+      };
       if let Some(mut r) = tpl_record(&format!("{path}#tpl{k}"), l, &text, &pattern, &template, Some(site.range().start)) {
-        r["self"] = json!(k % 4 == 3);
+        let hole_ok = r["bind"].as_array().map(|b| b.iter().any(|x| x["lo"] == json!(char_off(&text, n.range().start)) && x["hi"] == json!(char_off(&text, n.range().end)) && x["multi"] == false)).unwrap_or(false);
+        r["self"] = json!(is_self && hole_ok);
         w.put(&r);
         nc += 1;
       }
@@ -296,6 +318,99 @@ fn edit_cases(vectors: Option<&str>, corpus: &str, rng: &mut Rng, thorough: bool
   out
 }
 
+
+// ------------------------------------------------------------------------------------------------
+// `rewrite` transformations (C06, last clause): the captured text, every node under it in DFS order with the
+// verdict and edit of every listed rewriter on it (raw facts), and the text the transformation produced.
+struct RwCase {
+  id: String,
+  src: String,
+  source_var: &'static str, // "$$$ARGS" or "$A"
+  pattern: &'static str,
+  order: Vec<usize>, // rewriters listed in the transformation, by index into REWRITERS
+  join_by: Option<&'static str>,
+}
+
+fn rewriter_docs() -> Vec<Value> {
+  vec![
+    json!({"id": "rw-num", "language": "JavaScript", "rule": {"kind": "number"}, "fix": "N"}),
+    json!({"id": "rw-bar", "language": "JavaScript", "rule": {"pattern": "bar($X)"}, "fix": "baz($X)"}),
+    json!({"id": "rw-str", "language": "JavaScript", "rule": {"kind": "string"}, "fix": "'é'"}),
+    json!({"id": "rw-call", "language": "JavaScript", "rule": {"kind": "call_expression"}, "fix": "call"}),
+    json!({"id": "rw-del", "language": "JavaScript", "rule": {"kind": "identifier", "regex": "^x"}, "fix": ""}),
+  ]
+}
+
+fn rewrite_cases(rng: &mut Rng, thorough: bool) -> Vec<RwCase> {
+  let args_pool = ["1", "bar(2)", "x", "bar(bar(3))", "\"é🦀\"", "qux(4, bar(5))", "[6, x1]", "y"];
+  let orders: Vec<Vec<usize>> = vec![vec![0], vec![1, 0], vec![0, 1], vec![3, 1, 0], vec![1, 3], vec![2, 4, 0], vec![4], vec![1, 2, 0, 4]];
+  let n = if thorough { 400 } else { 60 };
+  let mut out = vec![];
+  for i in 0..n {
+    let k = 1 + rng.below(5);
+    let args: Vec<&str> = (0..k).map(|_| *rng.pick(&args_pool[..])).collect();
+    let sep = if rng.chance(1, 4) { ",\n    " } else { ", " };
+    let lead = if rng.chance(1, 3) { "\n  " } else { "" };
+    let (pattern, source_var, src) = if i % 3 == 2 {
+      ("foo($A)", "$A", format!("{lead}foo({});\n", args[0]))
+    } else {
+      ("foo($$$ARGS)", "$$$ARGS", format!("{lead}foo({});\n", args.join(sep)))
+    };
+    let join_by = match i % 4 { 1 => Some("+"), 3 => Some(""), _ => None };
+    out.push(RwCase { id: format!("rw{i}"), src, source_var, pattern, order: rng.pick(&orders[..]).clone(), join_by });
+  }
+  out
+}
+
+fn rewrite_record(c: &RwCase) -> Option<Value> {
+  let lang = SupportLang::JavaScript;
+  let docs = rewriter_docs();
+  let names: Vec<String> = c.order.iter().map(|i| docs[*i]["id"].as_str().unwrap().to_string()).collect();
+  let mut rw = json!({"source": c.source_var, "rewriters": names});
+  if let Some(j) = c.join_by {
+    rw["joinBy"] = json!(j);
+  }
+  let rewriters: Vec<Value> = docs.iter().map(|d| json!({"id": d["id"], "rule": d["rule"], "fix": d["fix"]})).collect();
+  let rule = json!({"id": "r", "language": "JavaScript", "rule": {"pattern": c.pattern}, "rewriters": rewriters,
+                    "transform": {"NEW": {"rewrite": rw}}, "fix": "out($NEW)"});
+  let globals = ast_grep_config::GlobalRules::default();
+  let cfg: Vec<ast_grep_config::RuleConfig<SupportLang>> = ast_grep_config::from_yaml_string(&serde_json::to_string(&rule).unwrap(), &globals).ok()?;
+  let cfg = &cfg[0];
+  // each rewriter on its own, to ask it about single nodes
+  let singles: Vec<ast_grep_config::RuleConfig<SupportLang>> = docs
+    .iter()
+    .map(|d| ast_grep_config::from_yaml_string(&serde_json::to_string(d).unwrap(), &globals).unwrap().remove(0))
+    .collect();
+  let grep = lang.ast_grep(&c.src);
+  let nm = grep.root().find(&cfg.matcher)?;
+  let env = nm.get_env();
+  let name = c.source_var.trim_start_matches('$');
+  let nodes: Vec<_> = if c.source_var.starts_with("$$$") { env.get_multiple_matches(name) } else { env.get_match(name).cloned().into_iter().collect() };
+  let out = env.get_transformed("NEW").cloned();
+  let (cs, ce) = if nodes.is_empty() { (0, 0) } else { (nodes[0].range().start, nodes[nodes.len() - 1].range().end) };
+  let mut cands = vec![];
+  for n in &nodes {
+    for d in n.dfs() {
+      let mut hits = vec![];
+      for (oi, ri) in c.order.iter().enumerate() {
+        let m = &singles[*ri].matcher;
+        let mut e = std::borrow::Cow::Owned(ast_grep_core::meta_var::MetaVarEnv::new());
+        if let Some(found) = ast_grep_core::Matcher::match_node_with_env(m, d.clone(), &mut e) {
+          let nm2 = ast_grep_core::NodeMatch::new(found, e.into_owned());
+          let ed = nm2.make_edit(m, m.fixer.as_ref().unwrap());
+          hits.push(json!({"rw": oi + 1, "pos": ed.position, "del": ed.deleted_length, "ins": bytes(&ed.inserted_text)}));
+        }
+      }
+      let r = d.range();
+      cands.push(json!({"s": r.start, "e": r.end, "hits": hits}));
+    }
+  }
+  Some(json!({"id": c.id, "mode": "rewrite", "text": c.src, "src": bytes(c.src.as_bytes()), "cs": cs, "ce": ce, "n_nodes": nodes.len(),
+              "order": names, "join": c.join_by.is_some(), "joiner": bytes(c.join_by.unwrap_or("").as_bytes()),
+              "cands": cands, "has_out": out.is_some(), "out": bytes(&out.clone().unwrap_or_default()),
+              "out_utf8": String::from_utf8(out.unwrap_or_default()).is_ok()}))
+}
+
 fn ext_of(path: &str) -> &'static str {
   let e = path.rsplit('.').next().unwrap_or("txt");
   for x in ["sh", "c", "cpp", "cs", "css", "ex", "go", "hs", "html", "java", "js", "json", "kt", "lua", "php", "py", "rb", "rs", "scala", "swift", "tsx", "ts", "yml"] {
@@ -329,6 +444,14 @@ pub fn drive(tpl_vectors: Option<&str>, edit_vectors: Option<&str>, corpus: &str
     }
     summ["edit_cases"] = json!(cases.len());
     summ["edit_records"] = json!(n);
+    let mut nrw = 0;
+    for c in rewrite_cases(&mut rng, thorough) {
+      if let Some(r) = rewrite_record(&c) {
+        w.put(&r);
+        nrw += 1;
+      }
+    }
+    summ["rewrite_records"] = json!(nrw);
   }
   summ["records"] = json!(w.finish());
   util::summary(summ);
